@@ -344,6 +344,45 @@ def b_type(interp: Any, args: List[Any], kwargs: Dict[str, Any]) -> Any:
     return cv
 
 
+class MapIter:
+    """map(f, xs): a ONE-SHOT lazy iterator (a second iteration yields nothing)"""
+
+    def __init__(self, f: Any, xs: Any):
+        self.f, self.xs, self.used = f, xs, False
+
+    def _items(self, interp: Any, items: List[Any]) -> List[Any]:
+        return [interp.call(self.f, [x], {}) for x in items]
+
+    def pyvc_iter(self, interp: Any) -> List[Any]:
+        if self.used:
+            return []
+        self.used = True
+        return self._items(interp, interp.iterate(self.xs))
+
+    def pyvc_generic_loop(self, interp: Any, env: Any) -> List[Any]:
+        if self.used:
+            return []
+        self.used = True
+        g = getattr(self.xs, "pyvc_generic_loop", None)
+        return self._items(interp, g(interp, env) if g is not None else interp.iterate(self.xs))
+
+    def pyvc_types(self) -> Any:
+        return {"map", "Iterable"}
+
+
+def b_map(interp: Any, args: List[Any], kwargs: Dict[str, Any]) -> Any:
+    if len(args) != 2:
+        raise OutOfReach("map with several iterables")
+    return MapIter(args[0], args[1])
+
+
+def b_round(interp: Any, args: List[Any], kwargs: Dict[str, Any]) -> Any:
+    if all(isinstance(a, (int, Fraction)) for a in args):
+        r = round(*args)
+        return r
+    raise OutOfReach("round() of a symbolic number")
+
+
 def b_zip(interp: Any, args: List[Any], kwargs: Dict[str, Any]) -> Any:
     return list(zip(*[interp.iterate(a) for a in args]))
 
@@ -412,6 +451,11 @@ def make_builtins(interp: Any) -> Dict[str, Any]:
         "callable": B("callable", b_callable),
         "type": B("type", b_type),
         "zip": B("zip", b_zip),
+        "map": B("map", b_map),
+        "round": B("round", b_round),
+        "divmod": B("divmod", lambda it, a, k: (it.binop("//", a[0], a[1]), it.binop("%", a[0], a[1]))),
+        "pow": B("pow", lambda it, a, k: it.binop("**", a[0], a[1])),
+        "frozenset": TypeTok("frozenset", lambda it, a, k: frozenset(it.iterate(a[0])) if a else frozenset()),
         "enumerate": B("enumerate", b_enumerate),
         "reversed": B("reversed", b_reversed),
         "any": B("any", b_any),
